@@ -211,3 +211,38 @@ def specC10 (st : State) : List Fml :=
     | none => none)
 
 end PS
+
+namespace PS
+
+/-! ### C09: buffers.  (instant, signed quantity) of every access; the closed form of the levels -/
+
+def bufEventTerms (st : State) (b : Buffer) : List (Term × Int) :=
+  (st.bufUnloading b.name).map (fun e => (Term.var (.tStart e.1), - e.2)) ++
+  (st.bufLoading b.name).map (fun e => (Term.var (.tEnd e.1), e.2))
+
+def pairwiseNe : List Term → List Fml
+  | [] => []
+  | x :: rest => rest.map (fun y => Fml.ne x y) ++ pairwiseNe rest
+
+def specC09buf (st : State) (b : Buffer) : List Fml :=
+  let acc := st.bufAccesses b.name
+  let evs := bufEventTerms st b
+  if acc.length != evs.length then [] else
+  let levels := b.levelVars acc
+  let times := b.timeVars acc
+  let closed := (List.range acc.length).map (fun i =>
+    Fml.eq (levels.getD (i + 1) default)
+      (.add (levels.getD 0 default)
+        (.sum (evs.map (fun e => Term.ite (.le e.1 (times.getD i default)) (numT e.2) (numT 0))))))
+  let sorted := (List.range (acc.length - 1)).map (fun i => Fml.le (times.getD i default) (times.getD (i + 1) default))
+  let cover := evs.map (fun e => Fml.or (times.map (fun t => Fml.eq t e.1)))
+  let excl := if b.concurrent then [] else pairwiseNe (evs.map (·.1))
+  let ini := match b.initial with | some i => [Fml.eq (levels.getD 0 default) (numT i)] | none => []
+  let fin := match b.final with | some f => [Fml.eq (levels.getD acc.length default) (numT f)] | none => []
+  let lbs := match b.lb with | some l => levels.map (fun v => Fml.ge v (numT l)) | none => []
+  let ubs := match b.ub with | some u => levels.map (fun v => Fml.le v (numT u)) | none => []
+  closed ++ sorted ++ cover ++ excl ++ ini ++ fin ++ lbs ++ ubs
+
+def specC09 (st : State) : List Fml := st.buffers.flatMap (specC09buf st)
+
+end PS
